@@ -57,7 +57,11 @@ type Recycler struct {
 	resource string
 	interval time.Duration
 	status   map[string]bool
-	mtx      sync.Mutex
+	// forRule is the rule the schedule in status belongs to, epoch its number: timers started under a rule
+	// that has been replaced or cleared since must not act on the nodes of the rule in force.
+	forRule *Rule
+	epoch   uint64
+	mtx     sync.Mutex
 }
 
 func getRecyclerOfResource(resource string) *Recycler {
@@ -74,6 +78,17 @@ func getRecyclerOfResource(resource string) *Recycler {
 	// The interval follows the rule in force: the recycler is cached for the life of the process, and
 	// one that kept the interval of the rule it was created under ignored every later load.
 	rule := getOutlierRuleOfResource(resource)
+	recycler.mtx.Lock()
+	if rule != recycler.forRule {
+		// Another rule (or none) is in force than the one the pending recycle timers were started under: they
+		// are void - a timer of the replaced rule removed the node breaker of the rule in force after the OLD
+		// interval, and a status entry that outlived its rule kept a node ejected later from ever being
+		// scheduled. Nodes that are still ejected are scheduled again, under the rule in force, by the next
+		// request that finds them ejected.
+		recycler.forRule = rule
+		recycler.epoch++
+		recycler.status = make(map[string]bool)
+	}
 	if rule == nil {
 		logging.Error(errors.New("nil outlier rule"), "Nil outlier rule in getRecyclerOfResource()")
 	} else {
@@ -81,10 +96,9 @@ func getRecyclerOfResource(resource string) *Recycler {
 		if rule.RecycleIntervalS != 0 {
 			interval = time.Duration(rule.RecycleIntervalS) * time.Second
 		}
-		recycler.mtx.Lock()
 		recycler.interval = interval
-		recycler.mtx.Unlock()
 	}
+	recycler.mtx.Unlock()
 	return recycler
 }
 
@@ -95,8 +109,9 @@ func (r *Recycler) scheduleNodes(nodes []string) {
 		if _, ok := r.status[node]; !ok {
 			r.status[node] = false
 			nodeCopy := node // Copy values to correctly capture the closure for node.
+			epoch := r.epoch
 			time.AfterFunc(r.interval, func() {
-				r.recycle(nodeCopy)
+				r.recycle(nodeCopy, epoch)
 			})
 		}
 	}
@@ -110,9 +125,14 @@ func (r *Recycler) recover(node string) {
 	}
 }
 
-func (r *Recycler) recycle(node string) {
+func (r *Recycler) recycle(node string, epoch uint64) {
 	r.mtx.Lock()
 	defer r.mtx.Unlock()
+	if epoch != r.epoch || getOutlierRuleOfResource(r.resource) != r.forRule {
+		// started under a rule that is no longer the one in force (whether or not a request has made the
+		// recycler notice since)
+		return
+	}
 	if v, ok := r.status[node]; ok && !v {
 		deleteNodeBreakerOfResource(r.resource, node)
 	}
